@@ -165,7 +165,7 @@ func H_C08_Composites() {
 		types := []int{0, 1, 7, 11, 3}
 		t := types[nd.IntRange(0, len(types)-1)]
 		_, ss := sigLens(t)
-		in := nd.Bytes(ss + 2)
+		in := nd.Bytes(ss + 2*nd.IntRange(0, 1)) // exact fit and trailing bytes
 		v, _, err := signature.ReadSignature(in, t)
 		if err != nil {
 			return
@@ -187,7 +187,7 @@ func H_C08_Composites() {
 		tts := []int{7, 1, 0}
 		tt := tts[nd.IntRange(0, 2)]
 		tp, _ := sigLens(tt)
-		in := nd.Bytes(6 + tp + 64 + 1)
+		in := nd.Bytes(6 + tp + 64 + nd.IntRange(0, 1)) // exact fit and one trailing byte
 		pin(in, 4, byte(tt>>8), byte(tt))
 		v, _, err := offline_signature.ReadOfflineSignature(in, 7)
 		if err != nil {
